@@ -16,7 +16,10 @@ From V Require Import Base.Util Gql.Ast Writer.Wop Ts.TsType Ts.TsDen C01.Model 
 Inductive case :=
 | CDoc (S : tsdoc) (D : opdoc) (ops : option (res (list wop)))
 | CDef (S : tsdoc) (D : opdoc) (idx : nat) (tree : option (res stree)) (t : option tstype)
-       (safe alias_free : bool).
+       (safe alias_free : bool)
+| CRelaxed (S : tsdoc) (D : opdoc) (idx : nat) (t : option tstype).
+   (* twin of a [CDef] whose definition contains an aliased __typename: C02 is evaluated with that one
+      known deviation read into Ref_local, so any OTHER looseness still fails *)
 
 Fixpoint stree_eqb (a b : stree) {struct a} : bool :=
   match a, b with
@@ -111,6 +114,7 @@ Definition agree (c : case) : bool :=
           && Bool.eqb (guard_safe Sc D d) safe
           && Bool.eqb (guard_alias_free Sc D d) al
       end
+  | CRelaxed _ _ _ _ => true
   end.
 
 (** ** C01 on the implementation's type: every enumerated spec response is admitted *)
@@ -130,7 +134,7 @@ Definition c01_on (S : tsdoc) (D : opdoc) (d : execdef) (t : tstype) : bool :=
   end.
 
 (** ** C02 on the implementation's type: every enumerated value it admits is in Ref_local *)
-Definition c02_on (S : tsdoc) (D : opdoc) (d : execdef) (t : tstype) : bool :=
+Definition c02_with (relaxed : bool) (S : tsdoc) (D : opdoc) (d : execdef) (t : tstype) : bool :=
   match def_target S d with
   | None => true
   | Some (T, sels) =>
@@ -138,12 +142,14 @@ Definition c02_on (S : tsdoc) (D : opdoc) (d : execdef) (t : tstype) : bool :=
       let E := schema_env S in
       let fuel := sp_fuel D in
       let inh := filter (admits E HT_FUEL t) (inhabitants E HT_FUEL t) in
-      negb (is_nil inh) && forallb (fun v => ref_local_b S F fuel fuel T sels v) inh
+      negb (is_nil inh) && forallb (fun v => den S F fuel (local_choices fuel F) relaxed fuel T sels v) inh
   end.
+Definition c02_on := c02_with false.
 
 Definition holds_with (p : tsdoc -> opdoc -> execdef -> tstype -> bool) (c : case) : bool :=
   match c with
   | CDoc _ _ _ => true
+  | CRelaxed _ _ _ _ => true
   | CDef Sc D idx _ t _ _ =>
       match nth_error (od_defs D) idx, t with
       | Some d, Some t => p Sc D d t
@@ -152,5 +158,13 @@ Definition holds_with (p : tsdoc -> opdoc -> execdef -> tstype -> bool) (c : cas
   end.
 
 Definition holds1 : case -> bool := holds_with c01_on.
-Definition holds2 : case -> bool := holds_with c02_on.
+Definition holds2 (c : case) : bool :=
+  match c with
+  | CRelaxed Sc D idx t =>
+      match nth_error (od_defs D) idx, t with
+      | Some d, Some t => c02_with true Sc D d t
+      | _, _ => false
+      end
+  | _ => holds_with c02_on c
+  end.
 Definition holds := holds1.
